@@ -182,7 +182,13 @@ func (cs *State) Delete(entry StateEntry) {
 
 	thisLevel.delSize -= entry.ThisSize
 	found := thisLevel.remove(entry.ThisRange)
-	if entry.ThisLevel != entry.NextLevel && !entry.NextRange.IsEmpty() {
+	// CompareAndAdd records NextRange as well when both ranges live on the same
+	// level (ingest merge, max-level rewrite). remove() drops every equal range,
+	// so a NextRange equal to ThisRange is already gone; a different one (the
+	// span of the overlapping bottom tables) must be released here, otherwise it
+	// blocks that key range of the level until restart.
+	sameLevel := entry.ThisLevel == entry.NextLevel
+	if !entry.NextRange.IsEmpty() && (!sameLevel || !entry.NextRange.Equals(entry.ThisRange)) {
 		found = nextLevel.remove(entry.NextRange) && found
 	}
 
